@@ -28,7 +28,7 @@ LEVEL_NOTE = ('trusted: CPython ast/tokenize; results whose root kind CPython ca
 RULE = ('enum: case = (program, node path or field[i:j], options); non-trivial = distinct extracted pieces with >= 1 token; states = '
         'distinct (program, piece source); traces = cases compared')
 ASSUMPTIONS = ['norm=True', 'separators, brackets, elif/else/if keywords and layout tokens are not conserved by definition']
-BOUNDS = {'quick': '128 programs (shared + layout programs); all nodes and all slices incl. virtual fields (_all/_args/_bases) with 6 option settings',
+BOUNDS = {'quick': '135 programs (shared + layout + multi-line + f-string-field programs); all nodes and all slices incl. virtual fields (_all/_args/_bases) with 6 option settings',
           'thorough': 'all 9 option settings'}
 
 OPTS = [{}, {'trivia': False}, {'trivia': ('all', 'all')}, {'pars': True}, {'trivia': 'all'}, {'trivia': 'block+1'},
